@@ -730,6 +730,63 @@ def r07_17(run, model):
     run.floor("calls of parameter-substitution functions", n, 27)
 
 
+def r07_18(run, model):
+    run.rule("R07.18", "`Self` stays inside the trait: a trait method signature is specialised (mono) and searched for helper types (Go back end) "
+                       "only under a test that `Self` occurs as the receiver only - `Self` is an ordinary struct name to both passes, so "
+                       "`fn checked(Self) -> Opt[Self]` would otherwise instantiate `Opt__Self` and declare `Tuple2_Self_Self`, types over an "
+                       "undeclared `Self`")
+    GOC = "crates/compiler/src/go/compile.rs"
+    ENV = "crates/compiler/src/env.rs"
+    selfpreds = set()
+    for rel in (ENV, MONO, GOC, "crates/compiler/src/tast.rs"):
+        for g in model.fns(rel):
+            if g.body is not None and re.search(r'"Self"', run.facts.text(rel, g.body["sp"])):
+                selfpreds.add(g.name)
+    grew = True
+    while grew:
+        grew = False
+        for rel in (ENV, MONO, GOC):
+            for g in model.fns(rel):
+                if g.body is not None and g.name not in selfpreds and any(S.callee_name(c) in selfpreds for c in S.walk(g.body) if c["k"] in ("Call", "MethodCall")):
+                    if (g.node.get("ret") or "").strip() == "bool":
+                        selfpreds.add(g.name)
+                        grew = True
+    sites = []
+    for rel, leaf in ((MONO, "collapse_type_apps"), (GOC, "collect_type")):
+        for f in model.fns(rel):
+            if f.body is None:
+                continue
+            for l in S.walk(f.node):
+                if l["k"] not in ("For", "MethodCall"):
+                    continue
+                # an iteration over the methods of trait definitions that applies the leaf to a scheme's type
+                if l["k"] == "For":
+                    src, body = S.norm_ws(run.facts.text(rel, l["iter"]["sp"])), l["body"]
+                else:
+                    if l["method"] not in ("map", "for_each") or not l["args"] or l["args"][0]["k"] != "Closure":
+                        continue
+                    src, body = S.norm_ws(run.facts.text(rel, l["recv"]["sp"])), l["args"][0]["body"]
+                if "methods" not in src:
+                    continue
+                for c in S.walk(body):
+                    if c["k"] in ("Call", "MethodCall") and S.callee_name(c) == leaf and any("scheme" in S.idents(a) or ".ty" in S.norm_ws(run.facts.text(rel, a["sp"])) for a in c["args"]):
+                        sites.append((rel, f, body, c))
+    seen = set()
+    for rel, f, body, c in sites:
+        k = (rel, c["sp"][0], c["sp"][1])
+        if k in seen:
+            continue
+        seen.add(k)
+        par = S.Parents(body)
+        guards = [a for a in par.ancestors(c) if a["k"] == "If" and S.span_contains(a["then"]["sp"], c["sp"]) and
+                  any(S.callee_name(x) in selfpreds for x in S.walk(a["cond"]) if x["k"] in ("Call", "MethodCall"))]
+        run.ob("R07.18", f"{f.name}|a trait signature is used only when Self is its receiver alone", bool(guards), site(rel, c["sp"]),
+               f"{S.callee_name(c)}(..) on a trait method's type; Self-aware guards: {len(guards)} (predicates: {sorted(selfpreds)[:6]})",
+               witness="trait Num { fn checked(Self) -> Opt[Self]; fn div_mod(Self, Self) -> (Self, Self); } never used behind dyn: the Go declares "
+                       "`Opt__Self_Some { _0 Self }` and `Tuple2_Self_Self`; `Self` is declared nowhere")
+    run.floor("uses of trait method signatures by mono and the Go back end", len(seen), 2)
+
+
 def r07_15(run, model):
     run.rule("R07.15", "no generic application survives in what is emitted: besides function signatures and bodies, mono collapses the field "
                        "types of the definitions it keeps (non-generic structs and enums are emitted as they stand) - in `mono`, outside "
@@ -768,6 +825,7 @@ def run(run, model):
     run.try_rule(r07_15, model)
     run.try_rule(r07_16, model)
     run.try_rule(r07_17, model)
+    run.try_rule(r07_18, model)
     from rules import c19 as _c19
     run.rule("R07.14", "two instances of a generic enum never share a Go type name for a variant (shared with C19 R19.8: the clash count ranges over the specialised enums that are emitted)")
     run.try_rule(_c19.r19_8, model)
